@@ -13,6 +13,7 @@ import (
 	"errors"
 	"fmt"
 	"hash"
+	"io"
 	"net"
 	"slices"
 	"strconv"
@@ -490,17 +491,22 @@ func (uconn *UConn) ApplyConfig() error {
 	return nil
 }
 
-func (uconn *UConn) extensionsList() []uint16 {
+func (uconn *UConn) extensionsList() ([]uint16, error) {
 
 	outerExts := []uint16{}
 	for _, ext := range uconn.Extensions {
-		buffer := cryptobyte.String(make([]byte, 2000))
-		ext.Read(buffer)
+		buffer := make([]byte, ext.Len())
+		if _, err := ext.Read(buffer); err != nil && !errors.Is(err, io.EOF) {
+			return nil, err
+		}
 		var extension uint16
-		buffer.ReadUint16(&extension)
+		extData := cryptobyte.String(buffer)
+		if !extData.ReadUint16(&extension) {
+			continue // the extension is not emitted (e.g. padding that decided not to pad)
+		}
 		outerExts = append(outerExts, extension)
 	}
-	return outerExts
+	return outerExts, nil
 }
 
 func (uconn *UConn) computeAndUpdateOuterECHExtension(inner *clientHelloMsg, ech *echClientContext, useKey bool) error {
@@ -511,7 +517,11 @@ func (uconn *UConn) computeAndUpdateOuterECHExtension(inner *clientHelloMsg, ech
 		encapKey = ech.encapsulatedKey
 	}
 
-	encodedInner, err := encodeInnerClientHelloReorderOuterExts(inner, int(ech.config.MaxNameLength), uconn.extensionsList())
+	outerExts, err := uconn.extensionsList()
+	if err != nil {
+		return err
+	}
+	encodedInner, err := encodeInnerClientHelloReorderOuterExts(inner, int(ech.config.MaxNameLength), outerExts)
 	if err != nil {
 		return err
 	}
